@@ -12,179 +12,105 @@ TB = ('Trusted: Lean 4.33 kernel (axioms propext, Classical.choice, Quot.sound o
 
 CHECKS = {
     'C01': dict(
-        text='Lean model of the canonical argument store, ordered_arguments, transform_to_args_kwargs and of '
-             "Python's call binding; theorems in Properties/C01.lean quantify over all signatures and stores. "
-             'Every run re-checks the proofs, diffs the model against the real build path on every small '
-             'signature shape x subset of set parameters plus random histories, and evaluates the property '
-             'directly (binding received by recording callables vs. binding implied by cfg[:]/ordered_arguments).',
-        note=TB + 'Nested Buildables are not part of this model (C02/C08).',
-        technique='Lean 4 proof over a hand-written model + differential correspondence + property oracle',
+        text='Theorems (all signatures, all stores): the positional list handed to the callable is slot by slot the stored value else the default followed by exactly the *args entries (C01_positional_aligned), no value is ever bound to another parameter (C01_never_misbinds), an unset required slot before a set one raises (C01_required_gap_raises). Correspondence: every signature shape with <= 6 named parameters x stored subsets + random edit histories; build binding received by recording callables vs model buildCall and vs the independent direct binding.',
+        note=TB + 'Partial: the full equation buildCall = direct is validated by correspondence, not proved. Hypothesis ViewWF (decidable) checked per generated signature.',
+        technique='Lean 4 proof over a hand-written executable model, tied to /repo on every run by differential correspondence (compiled Lean driver vs real code on generated inputs) and regenerated source tables; independent Python oracle searches for failing inputs',
         ref='§4 C01'),
-    'C03': dict(
-        text='Lean model mirroring __getitem__/__setitem__/__delitem__/__getattr__/__setattr__/__delattr__/'
-             'ordered_arguments/__dir__ function by function, theorems in Properties/C03.lean; correspondence '
-             'after every op of every generated history (small-scope exhaustive alphabet + random) and an '
-             'independent reference model (Appendix B) as property oracle on the real code.',
-        note=TB + 'Exception classes are not compared (the property fixes only "raises").',
-        technique='Lean 4 proof over a hand-written model + differential correspondence + reference-model oracle',
-        ref='§4 C03'),
-    'C16': dict(
-        text='Lean model of the history log (global counter, per-thread tracking switch, every store write '
-             'going through the two hooks that log) with theorems by induction over arbitrary edit histories: '
-             'last entry = current value, strictly increasing unique sequence numbers, suspended edits are '
-             'silent, constructor establishes the invariant, history never read by build, location provider '
-             'returns the user frame when inner frames are excluded, table obligation on the regenerated '
-             'exclusion list. Correspondence on generated histories incl. tag edits and 4 real threads.',
-        note=TB + 'Location attribution is proved for the provider model and tied to the source through the '
-             'regenerated tables (modules calling History.add_* vs. _exclude_locations); one open finding '
-             '(tagging.py not excluded) is listed in known_findings.json.',
-        technique='Lean 4 proof (invariants by induction over edit histories) + differential correspondence + oracle',
-        ref='§4 C16'),
     'C02': dict(
-        text='Lean heap model (topologically ordered object graph, identity = index) of fdl.build as a memoized '
-             'post-order traversal with on-stack cycle table and invocation log, composed with the ArgStore '
-             'binding model for every Config node; correspondence on random DAGs (invocation order by callable, '
-             'identity-aware canonical form of the built graph) and an independent reference build as oracle '
-             '(once per instance, dependencies first, same/distinct results, separate builds disjoint).',
-        note=TB + 'Theorems over the build model are still being added (see DESIGN.md status table); the '
-             'per-run guarantee rests on correspondence + oracle.',
-        technique='Lean 4 model + differential correspondence + reference-build oracle',
+        text="Theorems from the traversal invariant BuildSt.Inv (induction over the memoized post-order build of ANY heap): every reachable Buildable occurs exactly once in the invocation log, after everything it depends on; a second reference gets the memoized object without invocation; distinct instances get distinct results inside this build's own result heap; the built graph mirrors the config graph (Mirror). Correspondence: random DAGs, invocation log + identity-aware canonical result; oracle = independent reference build.",
+        note=TB + "Partial: 'separate builds share no objects' and pinning of memo keys against id() reuse are exercised by the correspondence run only (identity is abstract in the model).",
+        technique='Lean 4 proof over a hand-written executable model, tied to /repo on every run by differential correspondence (compiled Lean driver vs real code on generated inputs) and regenerated source tables; independent Python oracle searches for failing inputs',
         ref='§4 C02'),
+    'C03': dict(
+        text='15 theorems: cfg[:] is a function of store lookups with a fixed-length prefix, cfg[i] is list indexing of it, attribute laws (rejected iff invalid name, set/get, delete), named edits keep the view, the store stays well-formed, rejected edits have no effect. Correspondence after every op of exhaustive small-alphabet and random histories (item, slice, attribute, tag, update_callable, materialize), plus an independent reference model as oracle.',
+        note=TB + "Partial: the slice assign/delete compaction algorithms are validated against Py.Slice and the reference model by correspondence, not proved equal to list semantics. Exception classes are not compared (the property fixes only 'raises').",
+        technique='Lean 4 proof over a hand-written executable model, tied to /repo on every run by differential correspondence (compiled Lean driver vs real code on generated inputs) and regenerated source tables; independent Python oracle searches for failing inputs',
+        ref='§4 C03'),
     'C04': dict(
-        text='Lean model of the argument structure of a built Partial (build-time leaves and containers with '
-             'identity, built ArgFactories), of call-time evaluation with an allocation counter, and of '
-             'functools.partial keyword override; correspondence on random Partial/ArgFactory/Config nestings '
-             'x call sequences, and a hand-written functools.partial reference as oracle comparing the joint '
-             'canonical form (values + identities across calls).',
-        note=TB + 'Sharing of one ArgFactory instance at several positions is not generated.',
-        technique='Lean 4 model + differential correspondence + functools.partial reference oracle',
+        text="Theorems by mutual structural induction over every Partial/ArgFactory/container nesting and every call sequence: arguments without a factory are passed through uncopied and allocate nothing; each ArgFactory evaluation yields a new object allocated in this call's own window; containers holding a factory are rebuilt, others kept; objects created for different calls are pairwise distinct; call-time keywords override configured ones. Correspondence on random nestings x call sequences; oracle = hand-written functools.partial reference.",
+        note=TB + "Partial: agreement of the positional/keyword split with Python call semantics rests on C01's model + correspondence.",
+        technique='Lean 4 proof over a hand-written executable model, tied to /repo on every run by differential correspondence (compiled Lean driver vs real code on generated inputs) and regenerated source tables; independent Python oracle searches for failing inputs',
         ref='§4 C04'),
     'C05': dict(
-        text='Lean model of build with a failing node (error carries the log of completed invocations and the '
-             'path), of the nested-build guard as a state machine and of exception decoration over an abstract '
-             'class hierarchy, with theorems for instance/prefix in every branch, guard reset, nested rejection '
-             'and arbitrary sequences of builds; correspondence with every invocation index as crash point x '
-             'exception shapes, formatting failures, nested-build scripts.',
-        note=TB + "Python's class machinery (proxy subclass creation) is abstracted as Errors.decorate.",
-        technique='Lean 4 proof (decision logic + state machine) + differential correspondence + oracle',
+        text='Theorems: the surfaced exception is an instance of the original class with the original args as prefix, decoration happens iff formatting succeeds, the build guard is reset after failure, every nested build is rejected, arbitrary sequences of failing and succeeding builds leave no residue. Correspondence with every invocation index as crash point x exception shapes, formatting failures, nested-build scripts.',
+        note=TB + "Partial: Python's class machinery for the proxy exception is abstracted as Errors.decorate.",
+        technique='Lean 4 proof over a hand-written executable model, tied to /repo on every run by differential correspondence (compiled Lean driver vs real code on generated inputs) and regenerated source tables; independent Python oracle searches for failing inputs',
         ref='§4 C05'),
-    'C08': dict(
-        text='Lean heap model of daglish traversals (follow_path, iterate in three modes, collect_paths_by_id, '
-             'State.get_all_paths); correspondence of the (value, path) streams on random structures; oracle: '
-             'soundness of every reported pair, completeness / exact-once against an independent walk, exactness '
-             'of all-paths queries, identity rebuild (new and legacy API), caller-supplied registries, cycles.',
-        note=TB + 'In the default memoized mode atoms are memoized by CPython identity; only memoizable objects '
-             'are compared there. Theorems over the traversal model are still being added.',
-        technique='Lean 4 model + differential correspondence + independent-walk oracle',
-        ref='§4 C08'),
     'C06': dict(
-        text='Lean model of Buildable.__eq__ over two heaps (Python == on values with defaults-aware children, '
-             'then a lockstep walk maintaining a one-to-one object correspondence); correspondence of == in both '
-             'directions on generated pairs; oracle: reflexive, symmetric, transitive, never raises, != is the '
-             'negation, equality-preserving rewrites keep ==, equality-breaking rewrites are distinguished, and '
-             'equal configurations build equal canonical object graphs.',
-        note=TB + 'Leaves on which Python == identifies values of different types (1 / True / 1.0) are not generated.',
-        technique='Lean 4 model + differential correspondence + metamorphic oracle (rewrites)',
+        text="Theorems: == is reflexive on every object of a well-formed heap (value comparison with defaults filled in + lockstep sharing walk both succeed); different callable / node kind / Buildable type / argument set / missing argument / sharing on either side each force False. 'Never raises' = totality of the model function, tied by correspondence. Correspondence: generated pairs and triples in both directions; oracle checks symmetry, transitivity, history/dict-order/default insensitivity, congruence with build.",
+        note=TB + 'Partial: symmetry, transitivity and invariance under dict insertion order are not proved (correspondence + oracle only).',
+        technique='Lean 4 proof over a hand-written executable model, tied to /repo on every run by differential correspondence (compiled Lean driver vs real code on generated inputs) and regenerated source tables; independent Python oracle searches for failing inputs',
         ref='§4 C06'),
     'C07': dict(
-        text='Copies checked two ways: (A) a copy of one Buildable followed by an edit history must behave exactly '
-             'like the ArgStore model run from the original constructor arguments while the original is unchanged; '
-             '(B) on whole DAGs: canonical forms, identity intersection of every mutable part, edits of values, tags '
-             'and containers on the copy, for deepcopy / pickle / deepcopy_with / copy / copy_with / cast.',
-        note=TB + 'HistoryEntry objects are immutable and may be shared; history lists may not.',
-        technique='Lean 4 model (ArgStore) + differential correspondence + identity-intersection oracle',
+        text="Theorems over the heap copy model (copy of object i = object i+n): the deep copy has the same kind, callable, type, tags and argument keys node by node, the same answer to every path query and the same sharing; it refers only to its own objects; the original keeps its objects; whatever is done to later objects never changes any path query from an original object; shallow copies share argument values and are new objects. Correspondence: the real copy (deepcopy, pickle, deepcopy_with, copy, copy_with, cast) encoded on top of the original's encoding vs the model heap; original re-encoded after editing the copy; single-Buildable edit histories on the copy vs the ArgStore model.",
+        note=TB + 'Partial: identity of the real tag sets / argument dicts / history lists is checked by the oracle only.',
+        technique='Lean 4 proof over a hand-written executable model, tied to /repo on every run by differential correspondence (compiled Lean driver vs real code on generated inputs) and regenerated source tables; independent Python oracle searches for failing inputs',
         ref='§4 C07'),
-    'C14': dict(
-        text='Tag sets are part of the ArgStore Lean model (add/remove/set/clear, TaggedValue expansion); '
-             'correspondence after every op of generated histories plus a set-per-argument reference oracle; on '
-             'DAGs: set_tagged and select(tag=).replace exactness and frame, list_tags, survival through copy / '
-             'deepcopy / cast / JSON round trip / diff application, TaggedValue build.',
-        note=TB,
-        technique='Lean 4 model + differential correspondence + frame/exactness oracle',
-        ref='§4 C14'),
-    'C15': dict(
-        text='select() decided on the real code against an independent graph walk: exact-once iteration under '
-             'every match_subclasses / buildable_type setting over a class hierarchy, set (single and multiple '
-             'keywords), replace (copying, non-copying, with a replacement equal to the matches), tag-selection '
-             'iteration; Lean theorems concern the memoized walk model.',
-        note=TB + 'No model correspondence yet for replace; the oracle is an independent implementation.',
-        technique='Lean 4 model of the memoized walk + independent-walk oracle',
-        ref='§4 C15'),
-    'C17': dict(
-        text='55 read-only / copy-returning entry points are run on generated configurations (six flavours incl. '
-             'positional arguments, long values, callables that edit their arguments in place, argument-less tagged '
-             'sub-configs); before/after snapshots of canonical form, tags and identities of every mutable part; '
-             'returned copies are edited. Lean: frame theorems for traversals and copy-then-edit.',
-        note=TB + 'Membership of each API in the two proved mechanisms is checked on generated inputs, not proved.',
-        technique='Lean 4 frame theorems + before/after snapshot oracle over all entry points',
-        ref='§4 C17'),
-    'C20': dict(
-        text='Seven transformations + auto_config.inline + convert_dataclasses_to_configs: canonical form of '
-             'build(original) vs build(transformed) with callable values compared by full binding, == for '
-             'materialize_defaults / with_defaults_trimmed, idempotence and totality of materialize_defaults '
-             '(mirrored in the ArgStore Lean model), serializability preserved, input unchanged.',
-        note=TB + 'One open finding (trim-mutable-default) in known_findings.json.',
-        technique='Lean 4 model (materialize on ArgStore) + metamorphic build-equivalence oracle',
-        ref='§4 C20'),
+    'C08': dict(
+        text='Theorems for every heap, root and mode: every reported (value, path) satisfies follow_path; the un-memoized traversal reports exactly the valid paths, none twice; the memoized traversal reports every reachable mutable object exactly once; the all-paths query returns exactly the reaching paths without duplicates. Hypotheses WellFormed / PathsDistinct are decidable and enforced by the driver on every request. Correspondence of the (value, path) streams of iterate (3 modes), collect_paths_by_id, get_all_paths on random structures.',
+        note=TB + 'Partial: identity rebuild (map_children), legacy traversals and the cycle error of iterate are decided by the oracle only.',
+        technique='Lean 4 proof over a hand-written executable model, tied to /repo on every run by differential correspondence (compiled Lean driver vs real code on generated inputs) and regenerated source tables; independent Python oracle searches for failing inputs',
+        ref='§4 C08'),
     'C09': dict(
-        text='Lean theorems: the bytes codec round-trips every byte string; every symbol resolved while loading '
-             'ANY document was approved by allows_import and allows_value, a denied reference raises. Both models '
-             'are run against the real traverser / import_symbol on generated inputs; the oracle checks the full '
-             'round trip (types, leaves, callables, tags, sharing), stability of the second dump, strict JSON, no '
-             'invocation, policy consulted, tampered documents.',
-        note=TB + 'json.dumps / json.loads are trusted (Doc = identity). One open finding (NaN / Infinity tokens).',
-        technique='Lean 4 proof (codec round trip, policy gate) + differential correspondence + round-trip oracle',
+        text='Theorems: the bytes codec round-trips EVERY byte string; every symbol resolved while loading any document was approved by the policy; a denied reference raises. Correspondence of codec and policy gate with the real traverser / import_symbol; oracle: full round trip (types, leaves, callables, tags, sharing), second dump stable, strict JSON, no invocation, tampered documents.',
+        note=TB + 'Partial: the structural encoding is validated by correspondence + real round trip; json.dumps/loads trusted. One open finding (NaN/Infinity tokens).',
+        technique='Lean 4 proof over a hand-written executable model, tied to /repo on every run by differential correspondence (compiled Lean driver vs real code on generated inputs) and regenerated source tables; independent Python oracle searches for failing inputs',
         ref='§4 C09'),
     'C10': dict(
-        text='Decided on the real code: for generated (old, new) pairs build_diff must succeed, apply to a copy of '
-             'old, make it canonically equal to new (values, tags, sharing), leave diff and new untouched, share '
-             'nothing with new, and be empty for a deep copy. The Lean side carries the table obligation on the '
-             'operation order of _apply_changes.',
-        note=TB + 'Alignment heuristics and apply_diff are not modelled in Lean yet (status table in DESIGN.md); two '
-             'open findings (positional arguments, aligned tuples).',
-        technique='Lean 4 table obligation + round-trip oracle on generated pairs',
+        text="Theorems over single-node diffs with the validation the real DiffOperation.apply goes through: for every pair of valid nodes and every signature table, apply in the phase order READ FROM THE SOURCE (Generated/Tables.applyOrder) succeeds and yields new's callable, arguments and tag sets (C10_apply_build_diff); another order fails on a concrete pair (C10_order_matters); the diff of equal nodes is empty. Correspondence (flat stage): set of real changes = model diff; the model applies the REAL change list and gets the real result; nested pairs by the round-trip oracle.",
+        note=TB + 'Partial: alignment of nested structures, moved/shared sub-configurations and new_shared_values are decided by the oracle on generated pairs only. Two open findings (positional arguments, aligned tuples).',
+        technique='Lean 4 proof over a hand-written executable model, tied to /repo on every run by differential correspondence (compiled Lean driver vs real code on generated inputs) and regenerated source tables; independent Python oracle searches for failing inputs',
         ref='§4 C10'),
     'C11': dict(
-        text='Generated programs in the supported subset are written to temporary modules, decorated, and three '
-             'results are compared by canonical form: the undecorated function, the decorated function called '
-             'directly, fdl.build(fn.as_buildable(*args)); plus the invocation log during as_buildable and identity '
-             'disjointness of two builds.',
-        note=TB + 'The two-interpreter Lean model of DESIGN.md is not built yet; the check is oracle-based (Python '
-             'semantics of the undecorated function is the reference).',
-        technique='program generation + three-way differential oracle (Lean model pending)',
+        text='Model: the statement language of a function body (assignments, variables, literals, displays, configurable calls) with one new node per evaluated call. Theorems: each call creates exactly one node and touches nothing else; a variable used twice is one shared node; building the resulting DAG mirrors it object for object (C02 Mirror, exactly-once, distinct results). Correspondence: the SOURCE TEXT of generated functions is read into the model language and executed; the DAG must equal the one the real as_buildable returns; oracle compares real builds with real direct calls and counts invocations.',
+        note=TB + 'Partial: the AST rewrite itself, control flow, */** splats, exempt and calls of other auto_config functions are outside the modelled subset (oracle only; evidence reports how many programs were inside).',
+        technique='Lean 4 proof over a hand-written executable model, tied to /repo on every run by differential correspondence (compiled Lean driver vs real code on generated inputs) and regenerated source tables; independent Python oracle searches for failing inputs',
         ref='§4 C11'),
     'C12': dict(
-        text='Each module emitted by new_codegen / auto_config_codegen (sub-fixture subsets, complexity thresholds, '
-             'history) is imported as a real module, its fixture evaluated and compared with the input by canonical '
-             'form; value -> expression conversion is evaluated and compared incl. type.',
-        note=TB + 'The pass pipeline is not modelled; each emitted program is validated against its own input. Four '
-             'open findings in known_findings.json.',
-        technique='translation validation of every emitted program (Lean model of the generator pending)',
-        ref='§4 C12', category='translation_validation'),
+        text='Model: statement language of emitted fixtures with execution semantics over heaps. Theorems: the every-object-a-variable generator followed by execution rebuilds the configuration exactly (same objects, indices, arguments, tags, sharing); execution only allocates; a constructor yields a new object; a variable yields the object it was bound to. Correspondence: the module text emitted by BOTH real generators under all option settings is parsed into the language, executed by the model and compared with the input; oracle compiles and runs the real module.',
+        note=TB + 'Partial: inlining of single-use variables and sub-fixture extraction are not proved; leaf value expressions are oracle-only. Five open findings.',
+        technique='Lean 4 proof over a hand-written executable model, tied to /repo on every run by differential correspondence (compiled Lean driver vs real code on generated inputs) and regenerated source tables; independent Python oracle searches for failing inputs',
+        ref='§4 C12'),
     'C13': dict(
-        text='The fiddler emitted for every generated diff (four modes) is compiled, executed on a deep copy of old '
-             'and compared with apply_diff by canonical form; hand-assembled diffs cover references among new '
-             'shared values and into moved / replaced parts of old.',
-        note=TB + 'One open finding (tags on value-less arguments of new values).',
-        technique='translation validation of every emitted fiddler (Lean model pending)',
-        ref='§4 C13', category='translation_validation'),
+        text="Theorems: for EVERY change list the emitted fiddler equals apply with three coarse phases in diff order (C13_fiddler_is_regrouped_apply); statement by statement it does what the change does; for build_diff's diffs it yields exactly apply_diff's result, i.e. new. Correspondence: the emitted Python SOURCE is parsed back into statements, which must equal the model's emission of the real change list IN ORDER, and executing them in the model must give the real fiddler's result; all naming modes, with and without old.",
+        note=TB + 'Partial: agreement of the three-phase and five-phase orders for diffs in arbitrary change order, and nested targets, are oracle-only. One open finding.',
+        technique='Lean 4 proof over a hand-written executable model, tied to /repo on every run by differential correspondence (compiled Lean driver vs real code on generated inputs) and regenerated source tables; independent Python oracle searches for failing inputs',
+        ref='§4 C13'),
+    'C14': dict(
+        text='Theorems: after set_tagged every selected argument of every reachable Buildable holds the value, no other argument, no tag/callable/signature anywhere and no unreachable object changed; list_tags is exactly the union of reachable tag sets; add_tag/remove_tag/clear_tags touch exactly their tag. Correspondence: tag edit histories vs ArgStore model; on DAGs set_tagged, tag-selection replace and list_tags vs the heap model (Buildables still reachable afterwards).',
+        note=TB + 'Partial: survival of tags under copy/cast/serialization/diff and TaggedValue build are decided by the oracle (their machinery belongs to C07/C09/C10).',
+        technique='Lean 4 proof over a hand-written executable model, tied to /repo on every run by differential correspondence (compiled Lean driver vs real code on generated inputs) and regenerated source tables; independent Python oracle searches for failing inputs',
+        ref='§4 C14'),
+    'C15': dict(
+        text="Theorems for every node predicate: select yields exactly the reachable matching Buildables, each once; .set leaves unselected nodes untouched and assigns exactly the given attributes on selected ones; .replace keeps every node's identity, kind, callable, tags and keys, substitutes every reference to a matching node and nothing else; tag iteration yields value else default else NO_VALUE. Correspondence: matching rule vs NodeSelection._matches (subclass matching, Buildable type), shapes of all reachable Buildables after set/replace, tag values.",
+        note=TB + 'Order of iteration is not part of the property and not modelled; deepcopy=True replacement compared modulo the identity of the inserted copies.',
+        technique='Lean 4 proof over a hand-written executable model, tied to /repo on every run by differential correspondence (compiled Lean driver vs real code on generated inputs) and regenerated source tables; independent Python oracle searches for failing inputs',
+        ref='§4 C15'),
+    'C16': dict(
+        text='13 theorems by induction over arbitrary edit histories (closure principle Cfg.Closed): last entry = current value, strictly increasing unique sequence numbers, suspended edits are silent, one entry per write, history never read by build, location provider returns the user frame, table obligations on the regenerated exclusion list and store write sites. Correspondence on generated histories incl. tag edits and real threads.',
+        note=TB + 'Partial: C16_edit_modules_excluded_partial carries one open finding (tagging.py not excluded).',
+        technique='Lean 4 proof over a hand-written executable model, tied to /repo on every run by differential correspondence (compiled Lean driver vs real code on generated inputs) and regenerated source tables; independent Python oracle searches for failing inputs',
+        ref='§4 C16'),
+    'C17': dict(
+        text='The property is the absence of writes. Theorems: with the two heap effects readOnly / allocOnly every object and every path query of the input is unchanged, also after the caller edits the returned copy, for any sequence of calls. Which effect each of the 53 entry points has is checked, not proved: the correspondence encodes the input before and after every call (six configuration flavours) and compares with applyEffect; returned copies are edited.',
+        note=TB + 'Partial by nature: membership of each API in the two effects is established on generated inputs only.',
+        technique='Lean 4 proof over a hand-written executable model, tied to /repo on every run by differential correspondence (compiled Lean driver vs real code on generated inputs) and regenerated source tables; independent Python oracle searches for failing inputs',
+        ref='§4 C17'),
     'C18': dict(
-        text='Lean model of the FiddleFlag directive queue with theorems: draining applies exactly the queued '
-             'directives in order, split parse()/value sequences equal one parse of the concatenation, value = fold '
-             'over the command line, first directive must be a base config. Correspondence of the application log '
-             'on a real FiddleFlag; oracle for flattened printers (independent leaf enumeration, every printed path '
-             'resolves, write-back sets exactly that leaf), config_str round trip, CallExpression.parse.',
-        note=TB + 'The path grammar itself is tied by the oracle (print -> parse -> resolve), not proved.',
-        technique='Lean 4 proof (queue fold law) + differential correspondence + print/parse/write-back oracle',
+        text='Theorems: draining a directive queue applies exactly its directives in order, each once; parsing accumulates; the first directive must be a config. Correspondence: directive lists vs the real flag parser; printed paths re-parsed as override paths.',
+        note=TB + 'Partial: the path grammar (printing vs parsing) is tied by correspondence only.',
+        technique='Lean 4 proof over a hand-written executable model, tied to /repo on every run by differential correspondence (compiled Lean driver vs real code on generated inputs) and regenerated source tables; independent Python oracle searches for failing inputs',
         ref='§4 C18'),
     'C19': dict(
-        text='2-3 real threads under a deterministic sys.settrace scheduler switching at source lines inside '
-             'fiddle/_src: systematic single pre-emption at every k-th line, triple windows, seeded random '
-             'schedules; each thread must observe what it observes alone; sequence ids unique. Lean: table '
-             'obligation that the build guard and tracking switch are threading.local.',
-        note=TB + 'Sub-line atomicity is trusted. The schedule-quantified Lean theorem is listed in DESIGN.md status.',
-        technique='deterministic schedule enumeration on the real code + Lean 4 table obligation',
+        text="Model: per-thread build guard and tracking switch, one shared atomic sequence counter, schedules = arbitrary interleavings. Theorems for every schedule: each thread observes exactly what it would observe alone (sequence numbers up to order) and ends in the same local state; guard and suspension act per thread; sequence numbers unique across threads and increasing per thread; table obligation that both pieces of state ARE threading.local in the current source. Correspondence: real threads under a line-level sys.settrace scheduler vs the model's outputs for the same programs.",
+        note=TB + 'Partial: pre-emption inside an operation (shared caches, non-atomic counter) cannot be exhibited by the model; the scheduler-driven run explores it but is not a proof. Atomicity of next(itertools.count) under the GIL is assumed.',
+        technique='Lean 4 proof over a hand-written executable model, tied to /repo on every run by differential correspondence (compiled Lean driver vs real code on generated inputs) and regenerated source tables; independent Python oracle searches for failing inputs',
         ref='§4 C19'),
+    'C20': dict(
+        text='Theorems for materialize_defaults on one Buildable (every signature and store): configured arguments and tags untouched; only own defaults of value-less parameters are added; every parameter receives the same value as before; every named default is set afterwards; a second run adds nothing for named parameters. Correspondence: flat stage vs the ArgStore model; the other transformations by before/after builds of the real code (metamorphic oracle), ==, serializability, input unchanged.',
+        note=TB + 'Partial: idempotence with positional-only defaults and all transformations other than materialize_defaults are oracle-only. One open finding (trim-mutable-default).',
+        technique='Lean 4 proof over a hand-written executable model, tied to /repo on every run by differential correspondence (compiled Lean driver vs real code on generated inputs) and regenerated source tables; independent Python oracle searches for failing inputs',
+        ref='§4 C20'),
 }
 
 NOT_YET = {}
